@@ -3,7 +3,7 @@ CONSTANTS MaxNodes = 4
 MaxDepth = 3
 DocMode = FALSE
 Vocab <- VocabInline
-TextKinds <- TK6
+TextKinds <- TK4
 OptSets <- Opts4
-INVARIANTS BuilderSound DesignRefines Emit
+INVARIANTS BuilderSound DesignRefines EmitQuarter
 CHECK_DEADLOCK FALSE
